@@ -1485,6 +1485,13 @@ def _shape_types(ctx, name: str) -> Set[str]:
                 d = _dict_literal(ci.mod, x)
                 if d is not None:
                     out |= {k.value for k in d.keys if isinstance(k, ast.Constant)}
+            elif isinstance(x, ast.Attribute) and isinstance(x.value, ast.Name) and x.value.id == "self" and isinstance(x.ctx, ast.Load):
+                # a table kept on the object: `self.shape_checks = {...}` in __init__
+                for c_ in prog.mro(ci):
+                    init = c_.methods.get("__init__")
+                    for st in (walk_no_nested(init) if init is not None else ()):
+                        if isinstance(st, ast.Assign) and len(st.targets) == 1 and unparse(st.targets[0]) == unparse(x) and isinstance(st.value, ast.Dict):
+                            out |= {k.value for k in st.value.keys if isinstance(k, ast.Constant)}
     return out
 
 
@@ -1499,6 +1506,21 @@ def rule_sibling_guards(ctx, rep: Report, rid="M2"):
             a[1] == b[1] and len(a[1]) >= 2 and any("isa(" in x[1] for x in a[1]) and shapes_ok,
             f"only in constructor/function flavour: {[x for x in a[1] if x not in b[1]][:3]}; only in method flavour: "
             f"{[x for x in b[1] if x not in a[1]][:3]}", f"{ci.mod.rel}:0")
+    # the shape tests are selected by the declared type's name (Vector, Point2, Point3), never by the MATLAB class it maps to
+    # ('double' for all three and for Matrix and double as well)
+    for label, form in (("_wrap_variable_arguments", a), ("_wrap_method_check_statement", b)):
+        keyed = []
+        for g, txt in form[1]:
+            if "size(" in txt:
+                keyed.append((g, "NAME" in g and "TYPE" not in g))
+            elif txt.startswith("<call "):
+                hm = prog.find_method(ci, txt[len("<call "):].split("(", 1)[0])
+                if hm is not None and "size(" in unparse(hm[1]):
+                    args_txt = txt.split("(", 1)[1]
+                    keyed.append((txt, "NAME" in args_txt and "TYPE" not in args_txt))
+        rep.add(rid, f"{label}:the shape tests are chosen by the declared type name", bool(keyed) and all(ok_ for _, ok_ in keyed),
+                f"{[k for k, ok_ in keyed if not ok_][:2]}: looked up by the MATLAB class ('double') no Vector / Point2 / Point3 parameter gets its size test, "
+                f"so a matrix or a vector of another length selects the overload and is read as that type", f"{ci.mod.rel}:{prog.method('MatlabWrapper', label).lineno}")
     init = prog.method("MatlabWrapper", "__init__")
     tables = {}
     for st in walk_no_nested(init):
